@@ -18,7 +18,8 @@ Code(c) == LET o == Outcome(c) IN o.st * 100 + o.ex * 10 + (IF Allowed(c) THEN 1
 Line(x) == [world |-> x.world, cc |-> x.cc, ddb |-> x.ddb, kind |-> x.op.kind, db |-> x.op.db,
             stmts |-> [i \in 1..Len(x.op.stmts) |->
                          [cls |-> x.op.stmts[i].cls, form |-> x.op.stmts[i].form,
-                          a |-> x.op.stmts[i].a, b |-> x.op.stmts[i].b]],
+                          a |-> x.op.stmts[i].a, b |-> x.op.stmts[i].b,
+                          dev |-> IF x.op.stmts[i].dev \in Dev THEN x.op.stmts[i].dev ELSE ""]],
             devs |-> Taint(CaseOf(x, 1)), principal |-> AuthN(CaseOf(x, 1)),
             codes |-> [i \in 1..NUsers |-> IF i \in UsersOf(x) THEN Code(CaseOf(x, i)) ELSE 0 - 1]]
 
@@ -27,7 +28,13 @@ GInit == /\ g \in Groups
 GNext == UNCHANGED gvars
 GSpec == GInit /\ [][GNext]_gvars
 
-Emit == PrintT(<<"CASE", ToJson(Line(g))>>)
-\* the class list of the model, for the unclassified-statement guard
-EmitClasses == PrintT(<<"CLASSES", ToJson(Classes)>>)
+\* every line carries its kind in field k; the class list of the model (for the unclassified-statement
+\* guard) and the expected listings per user are printed once, with the first group
+IsFirst(x) == x.world = "noUsers" /\ x.cc = "none" /\ x.op.kind = "write" /\ x.op.db = "d1"
+Listing == [i \in 1..NUsers |->
+             [vis |-> ListedDbs(U(i), "databases"), cqs |-> ListedDbs(U(i), "cqs"), meas |-> ListedDbs(U(i), "measurements"),
+              mayvis |-> MayList(U(i), "databases"), maymeas |-> MayList(U(i), "measurements")]]
+Emit == /\ PrintT(<<"CASE", ToJson([k |-> "case"] @@ Line(g))>>)
+        /\ (IsFirst(g) => /\ PrintT(<<"CASE", ToJson([k |-> "classes", classes |-> Classes])>>)
+                          /\ PrintT(<<"CASE", ToJson([k |-> "listing", users |-> Listing])>>))
 =============================================================================
